@@ -945,4 +945,48 @@ example :
       fun f => (f.fileName, f.crc32, f.uncompressedSize)) =
     [([0x61], Spec.Crc32.crc32 [1, 2, 3], 3), ([0x64, 0x2f], 0, 0)] := by decide +kernel
 
+/-! ### `Write::flush` (outside the call alphabet)
+
+`impl Write for ZipWriter` has a second method besides `write`: `flush`.  It is not a constructor of `Call`
+(adding one would touch every induction over call lists in C01/C02/C10/C12/C13/C14); it is modelled by
+`Model.flushWriter`, answered by the driver from the model state in the `write` / `callseq` / `fault`
+correspondence (token `fl`), and these three facts are what the property needs of it: it never panics and
+never changes the writer, a closed writer reports the misuse, an open one succeeds on a fault-free sink. -/
+
+/-- `flush` leaves the writer state as it is — whatever it returns, from every state (no invariant
+needed), on every device, under every injected fault — and it does not panic.  Hence it can be
+interleaved anywhere in a call sequence without affecting `inv_step` / `writer_no_panic`. -/
+theorem flush_keeps_state (s : WState) (fa : Option Nat) (d : Dev) :
+    Sat (flushWriter s) fa d (fun rs _ => rs.2 = s) := by
+  unfold flushWriter
+  split
+  · exact Sat.pure rfl
+  · exact Sat.io_flush (fun _ _ => Sat.pure rfl) (fun _ _ _ => rfl)
+  · exact Sat.pure rfl
+  · exact Sat.pure rfl
+
+/-- Misuse is reported: `flush` on a closed writer (after `finish`, or after a call that closed it) is
+`Err(BrokenPipe)`, without touching the sink. -/
+theorem flush_closed_is_error (s : WState) (h : s.inner = .closed) (fa : Option Nat) (d : Dev) :
+    flushWriter s fa d = (.ok (.error (.io .brokenPipe), s), d) := by
+  unfold flushWriter; rw [h]; rfl
+
+/-- … and only then: on a fault-free sink `flush` on a writer that is not closed returns `Ok`. -/
+theorem flush_open_ok (s : WState) (h : s.inner ≠ .closed) (d : Dev) :
+    ∃ d', flushWriter s none d = (.ok (.ok (), s), d') := by
+  unfold flushWriter
+  cases hi : s.inner with
+  | closed => exact absurd hi h
+  | storer enc =>
+    cases enc with
+    | none => exact ⟨_, rfl⟩
+    | some e => exact ⟨d, rfl⟩
+  | compressor m l enc pending => exact ⟨d, rfl⟩
+
+/-- after a successful `finish` the writer is closed, so `flush` is refused (with `finish_closed`) -/
+example (d : Dev) : flushWriter { WState.init with inner := .closed } none d =
+    (.ok (.error (.io .brokenPipe), { WState.init with inner := .closed }), d) :=
+  flush_closed_is_error _ rfl none d
+
+
 end ZipVerif.Props.C12
